@@ -1726,4 +1726,130 @@ Proof.
   cbn [plainc forallb] in *. apply andb_true_iff in Hp as [_ Hb]. rewrite Hb, andb_true_r. unfold is_upper in Hc. lia.
 Qed.
 End BadLines.
+
+(* ------------------------------------------------------------------------------------------------------------------ *)
+(* C04: print-back through the repo's own __str__ methods *)
+
+Section RepoPrint.
+Hypothesis Hskip : attr_str_skips_none T = true.
+Hypothesis Hrepo : repo_terms_ok T = true.
+
+Lemma r_num_repo n : r_num T repo_style n = r_dec n.
+Proof. reflexivity. Qed.
+
+Definition simple_value (v : avalue) : bool := match v with AvNone => false | _ => not_free_value v end.
+
+Lemma attr_str_values_simple vals : forallb simple_value vals = true ->
+  attr_str_values T vals [] = map (r_avalue T repo_style) vals.
+Proof.
+  induction vals as [|v vals IH]; intro H; [reflexivity|]. cbn [forallb] in H. apply andb_true_iff in H as [Hv Hvs].
+  destruct v as [n|s|]; cbn [simple_value not_free_value] in Hv; try discriminate.
+  - cbn [attr_str_values map r_avalue app]. rewrite (IH Hvs). reflexivity.
+  - cbn [attr_str_values map r_avalue]. apply negb_true_iff in Hv. rewrite Hv. cbn [app]. rewrite (IH Hvs). reflexivity.
+Qed.
+
+Lemma negation_is_not : negation T = code_not.
+Proof. unfold repo_terms_ok in Hrepo. apply andb_true_iff in Hrepo as [H _]. apply list_eqb_eq. exact H. Qed.
+
+Lemma comparer_iff ctx name k : attr_kind T ctx name = Some k -> list_eqb name code_comparer = is_transform_kind k.
+Proof.
+  intro Hk. destruct (attr_kind_in T ctx name k Hk) as [names [Hin Hn]].
+  unfold repo_terms_ok in Hrepo. apply andb_true_iff in Hrepo as [_ H]. rewrite forallb_forall in H.
+  assert (Hin' : In (ctx, k, names) (attr_tables T None ++ attr_tables T (Some CField))).
+  { apply in_or_app. destruct ctx; [left|left|right]; try exact Hin; unfold attr_tables in *; apply in_or_app; [left|right]; exact Hin. }
+  specialize (H _ Hin'). cbn [fst snd] in H. rewrite forallb_forall in H. specialize (H name Hn). apply Bool.eqb_prop in H. exact H.
+Qed.
+
+Lemma comparer_values_eq vals : wf_pairs T vals = true -> comparer_values vals = r_pairs T repo_style vals.
+Proof.
+  assert (Hgen : forall n vals, (length vals <= n)%nat -> wf_pairs T vals = true -> comparer_values vals = r_pairs T repo_style vals).
+  { induction n as [|n IH]; intros vs Hn Hwf; destruct (wf_pairs_inv T vs Hwf) as [p [t [r [-> [Hp [Ht Hr]]]]]].
+    - cbn in Hn. lia.
+    - cbn [comparer_values r_pairs py_str_value r_avalue]. f_equal.
+      + destruct t as [?|tn|]; try discriminate; reflexivity.
+      + destruct Hr as [->|Hr]; [reflexivity|]. apply IH; [cbn [length] in Hn; lia|exact Hr]. }
+  apply (Hgen (length vals)). lia.
+Qed.
+
+Lemma option_not_not o : In (of_string o) (alignment_option T) -> list_eqb (of_string o) code_not = false.
+Proof.
+  intro Ho. destruct (list_eqb (of_string o) code_not) eqn:E; [|reflexivity]. apply list_eqb_eq in E.
+  pose proof (ok_cf_align T Hok) as Hpw. cbn [pw_cf] in Hpw. apply andb_true_iff in Hpw as [Hf _]. rewrite forallb_forall in Hf.
+  specialize (Hf _ Ho). rewrite negation_is_not, <- E in Hf. unfold cf, is_prefix in Hf. rewrite <- (app_nil_r (of_string o)) in Hf at 2.
+  rewrite strip_prefix_app in Hf. discriminate.
+Qed.
+
+Lemma format_attribute_eq ctx a : wf_attr T ctx a = true -> attr_not_free T ctx a = true ->
+  format_attribute T a = r_attr T repo_style ctx a.
+Proof.
+  intros Hwf Hnf. unfold wf_attr in Hwf. unfold attr_not_free in Hnf. unfold format_attribute, r_attr, attr_str.
+  destruct (attr_kind T ctx (of_string (at_name a))) as [k|] eqn:Hk; [|discriminate].
+  rewrite (comparer_iff ctx _ k Hk). destruct a as [name vals]. cbn [at_name at_values] in *.
+  destruct k; cbn [is_transform_kind].
+  - destruct vals; [reflexivity|discriminate].
+  - destruct vals as [|v1 vals]; [discriminate|]. destruct v1 as [n|?|]; try discriminate.
+    destruct vals as [|neg vals]; [discriminate|]. destruct vals as [|opt vals]; [destruct neg; discriminate|].
+    destruct vals as [|x vals]; [|destruct neg, opt; discriminate].
+    destruct opt as [?|o|].
+    + destruct neg; discriminate.
+    + destruct neg as [?|g|]; apply andb_true_iff in Hwf as [Hwf H3]; try discriminate; apply andb_true_iff in Hwf as [H1 H2]; apply mem_In in H2.
+      * apply list_eqb_eq in H3. cbn [attr_str_values r_avalue]. rewrite H3, negation_is_not, list_eqb_refl.
+        rewrite <- negation_is_not at 1. rewrite (option_not_not o H2). cbn [join app]. rewrite <- !app_assoc. reflexivity.
+      * cbn [attr_str_values r_avalue]. rewrite Hskip, (option_not_not o H2). cbn [join app]. reflexivity.
+    + destruct neg; try discriminate. cbn [attr_str_values r_avalue]. rewrite Hskip. cbn [join app]. rewrite app_nil_r. reflexivity.
+  - destruct vals as [|[?|p|] [|? ?]]; try discriminate. rewrite attr_str_values_simple; [reflexivity|].
+    cbn [forallb] in *. unfold simple_value. exact Hnf.
+  - destruct vals as [|[?|p|] [|[n|?|] [|? ?]]]; try discriminate; (rewrite attr_str_values_simple; [reflexivity|]); cbn [forallb] in *; unfold simple_value; exact Hnf.
+  - destruct vals as [|[?|p|] [|[?|c|] [|? ?]]]; try discriminate. rewrite attr_str_values_simple; [reflexivity|]. cbn [forallb] in *. unfold simple_value. exact Hnf.
+  - destruct vals as [|v vs]; [discriminate|]. rewrite attr_str_values_simple; [reflexivity|].
+    apply forallb_forall. intros x Hx. rewrite forallb_forall in Hwf, Hnf. specialize (Hwf x Hx). specialize (Hnf x Hx).
+    destruct x; try discriminate. exact Hnf.
+  - rewrite (comparer_values_eq vals Hwf). destruct vals; [discriminate|]. reflexivity.
+Qed.
+
+Lemma format_attributes_eq ctx attrs : wf_attrs T ctx attrs = true -> attrs_not_free T ctx attrs = true ->
+  format_attributes T attrs = r_attrs T repo_style ctx attrs.
+Proof.
+  destruct attrs as [l|]; [|reflexivity]. cbn [format_attributes r_attrs wf_attrs attrs_not_free]. intros Hwf Hnf.
+  assert (Hl : forallb (wf_attr T ctx) l = true) by (destruct l; [discriminate|exact Hwf]). clear Hwf.
+  induction l as [|a l IH]; [reflexivity|]. cbn [forallb] in *. apply andb_true_iff in Hl as [Ha Hl]. apply andb_true_iff in Hnf as [Hna Hnl].
+  cbn [map]. rewrite (format_attribute_eq ctx a Ha Hna), (IH Hnl Hl). reflexivity.
+Qed.
+
+Lemma repo_member_eq f : wf_field T f = true -> attrs_not_free T CField (field_attrs f) = true ->
+  repo_member_tlines T f = member_tlines T repo_style f.
+Proof.
+  intros Hwf Hnf. destruct (wf_field_meta f Hwf) as [_ Ha]. unfold repo_member_tlines, member_tlines, field_str.
+  rewrite (format_attributes_eq CField _ Ha Hnf). cbn [repo_style st_indent st_blank_member blanks repeat]. rewrite app_nil_r. reflexivity.
+Qed.
+Lemma repo_value_eq v : repo_value_tlines T v = value_tlines T repo_style v.
+Proof. unfold repo_value_tlines, value_tlines. cbn [repo_style st_indent st_blank_member blanks repeat]. rewrite app_nil_r. reflexivity. Qed.
+
+Lemma flat_map_ext_in {A B} (f g : A -> list B) l : (forall x, In x l -> f x = g x) -> flat_map f l = flat_map g l.
+Proof. induction l as [|x l IH]; intro H; [reflexivity|]. cbn [flat_map]. rewrite (H x (or_introl eq_refl)), IH; [reflexivity|]. intros y Hy. apply H. right. exact Hy. Qed.
+
+Lemma repo_decl_eq d : wf_decl T d = true -> decl_not_free T d = true -> repo_decl_tlines T d = decl_tlines T repo_style d.
+Proof.
+  destruct d as [n l c|n b vals attrs c|s]; cbn [wf_decl decl_not_free repo_decl_tlines decl_tlines]; intros Hwf Hnf.
+  - reflexivity.
+  - apply andb_true_iff in Hwf as [H _]. apply andb_true_iff in H as [_ Ha].
+    rewrite (format_attributes_eq CEnum attrs Ha Hnf). f_equal. f_equal. f_equal. apply flat_map_ext_in. intros v _. apply repo_value_eq.
+  - apply andb_true_iff in Hwf as [H _]. apply andb_true_iff in H as [H Hf]. apply andb_true_iff in H as [_ Ha].
+    apply andb_true_iff in Hnf as [Hna Hnf]. rewrite (format_attributes_eq CStruct _ Ha Hna). f_equal. f_equal. f_equal.
+    apply flat_map_ext_in. intros f Hin. assert (Hff : forallb (wf_field T) (s_fields s) = true) by (destruct (s_fields s); [discriminate|exact Hf]).
+    rewrite forallb_forall in Hff, Hnf. apply repo_member_eq; [apply Hff|apply Hnf]; exact Hin.
+Qed.
+
+Lemma repo_print_is_render ds : forallb (wf_item T) ds = true -> doc_not_free T ds = true ->
+  repo_print_with T ds = render_with T repo_style (strip_free_comments ds).
+Proof.
+  intros Hwf Hnf. rewrite render_text_of. unfold repo_print_with, text_of. cbn [style_cr repo_style st_crlf app].
+  f_equal. unfold tlines. induction ds as [|it ds IH]; [reflexivity|].
+  cbn [forallb] in Hwf. apply andb_true_iff in Hwf as [Hit Hds]. unfold doc_not_free in Hnf. cbn [forallb] in Hnf. apply andb_true_iff in Hnf as [Hni Hnds].
+  cbn [flat_map strip_free_comments filter]. destruct it as [d|p|c]; cbn [flat_map repo_item_tlines app].
+  - rewrite (IH Hds Hnds). unfold item_tlines. cbn [wf_item] in Hit. rewrite (repo_decl_eq d Hit Hni). reflexivity.
+  - rewrite (IH Hds Hnds). reflexivity.
+  - apply (IH Hds Hnds).
+Qed.
+End RepoPrint.
 End Proofs2.
